@@ -275,11 +275,24 @@ class C04(Property):
         from edxml.error import EDXMLMergeConflictError
         o, t = build_ontology(case['et'])
         events = [gen.build_event(e, case['repr']) for e in case['events']]
+        before = [view_of(e) for e in events]
+
+        def again(first, redo):
+            # merging is a function of its inputs: they are left as they were, and merging the same objects once more
+            # gives the same result
+            if [view_of(e) for e in events] != before:
+                return 'inputs changed'
+            try:
+                return True if redo() == first else 'second merge differs'
+            except Exception as ex:
+                return 'second merge raised ' + type(ex).__name__
         try:
             if case['how'] == 'merge':
-                return {'ok': view_of(t.merge_events(events))}
+                first = view_of(t.merge_events(events))
+                return {'ok': first, 'again': again(first, lambda: view_of(t.merge_events(events)))}
             coll = edxml.EventCollection(events, o)
-            return {'ok': sorted((view_of(e) for e in coll.resolve_collisions()), key=json.dumps)}
+            first = sorted((view_of(e) for e in coll.resolve_collisions()), key=json.dumps)
+            return {'ok': first, 'again': again(first, lambda: sorted((view_of(e) for e in coll.resolve_collisions()), key=json.dumps))}
         except EDXMLMergeConflictError:
             return {'err': 'EDXMLMergeConflictError'}
         except Exception as ex:
@@ -294,10 +307,13 @@ class C04(Property):
         if 'err' in r:
             return r
         if case['how'] == 'merge':
-            return {'ok': model_view(r['ok'])}
-        return {'ok': sorted((model_view(e) for e in r['ok']), key=json.dumps)}
+            return {'ok': model_view(r['ok']), 'again': True}
+        return {'ok': sorted((model_view(e) for e in r['ok']), key=json.dumps), 'again': True}
 
     def oracle(self, case, obs):
+        if obs.get('again', True) is not True:
+            return 'merging %d colliding events: %s (merging must leave its inputs alone and give the same result every time)' % (
+                len(case['events']), obs['again'])
         if case['how'] == 'merge':
             return merge_oracle(case['et'], case['events'], obs)
         if 'err' in obs:
